@@ -1,0 +1,26 @@
+//! Verification hooks, compiled only with `--cfg assets_manager_verif`.
+//!
+//! Nothing in this module (or any other `cfg(assets_manager_verif)` item)
+//! exists in a normal build.
+
+use std::sync::RwLock;
+
+type Hook = fn(&'static str);
+
+static YIELD_HOOK: RwLock<Option<Hook>> = RwLock::new(None);
+
+/// Installs (or removes) the function called at every yield point.
+pub fn set_yield_hook(hook: Option<Hook>) {
+    *YIELD_HOOK.write().unwrap_or_else(|e| e.into_inner()) = hook;
+}
+
+/// Marks the boundary of an atomic step of the verification model.
+///
+/// Does nothing unless a hook was installed with [`set_yield_hook`].
+#[inline]
+pub fn yield_point(tag: &'static str) {
+    let hook = *YIELD_HOOK.read().unwrap_or_else(|e| e.into_inner());
+    if let Some(hook) = hook {
+        hook(tag);
+    }
+}
